@@ -367,7 +367,7 @@ def run(chk):
              "1e308 * 10.0", "1e308 + 1e308", "(-1e308) - 1e308", "1e-320 / 1e10", "1.0 / 1e-320", "1e308 / 0.1", "2.0 ** 5000", "2.0 ** 1023", "2.0 ** 1024", "(-2.0) ** 1025",
              "10.0 ** 308", "10.0 ** 309", "0.0 ** (-1.0)", "0.0 ** 0.0", "(-8.0) ** (1.0/3.0)", "1e200 * 1e200", "(-1e200) * 1e200", "0.0 / 0.0", "1.0 / 0.0", "(-1.0) / 0.0",
              "1e308 % 3.0", "5.0 % 0.0", "(10**400).to_float()", "(10**308).to_float()", "(10**309).to_float()", "(-(10**400)).to_float()", "(2**1024).to_float()",
-             "(2**1024-1).to_float()", "10**400 / 3", "10**400 / 10**399", "1 / 10**400", "(10**400) / 1.5", "1.5 * 10**400", "1.5 + 10**400", "10**400 - 1.5",
+             "(2**1024-1).to_float()", "(2**1024-1) / 1", "(2**1024 - 2**970) / 1", "(2**1024 - 2**970 - 1) / 1", "(-(2**1024-1)) / 1", "(2**1024-1) / (-1)", "(2**1025-1) / 2", "(2**1024-1) / 3", "10**400 / 3", "10**400 / 10**399", "1 / 10**400", "(10**400) / 1.5", "1.5 * 10**400", "1.5 + 10**400", "10**400 - 1.5",
              "2 ** (-1)", "2 ** (-1075)", "2 ** (-2000)", "sqrt(-1.0)", "ln(0.0)", "ln(-1.0)", "log(0.0, 10.0)", "log(10.0, 1.0)", "log(10.0, 0.0)",
              "gamma(172.0)", "gamma(171.0)", "gamma(0.0)", "gamma(-1.0)", "gamma(-170.5)", "gammaln(0.0)", "gammaln(1e308)", "gammaln(-1.0)", "expm1(710.0)", "expm1(709.0)", "e ** 710.0", "e ** 709.0",
              "cosh(711.0)", "tan(1.5707963267948966)", "atanh(1.0)", "atanh(-1.0)", "atanh(1.5)", "acosh(0.5)", "acos(2.0)", "asin(-2.0)",
